@@ -131,6 +131,10 @@ def main_clause(cl, rng, n, replay):
             A = 1 + a0[:, None] * np.exp(-0.5 * ((lf[None, :] - np.log(f0)[:, None]) / 0.06) ** 2) + b0[:, None] * np.exp(-0.5 * ((lf[None, :] - np.log(3.0)) / 0.12) ** 2)
             w0 = int(np.argmin(np.abs(np.log(f0))))          # a window whose own peak is typical: it stays accepted
             A[w0, np.abs(lf - np.log(3.0)) < 0.4] = 0.0
+        if j % 5 == 2:
+            # curves as they come out of a text file with one or two decimals: flat-topped peaks (equal neighbouring samples at the maximum), whose position is the
+            # middle of the flat run - the peak the published algorithm's peak search reports
+            A = np.round(A, int(rng.choice([1, 1, 2])))
         try:
             want = reference_fdwra(f, A.copy(), rng_hz, nn, mi, dfn, dmc, exact=crafted)
         except (ValueError, ZeroDivisionError, FloatingPointError):
